@@ -190,7 +190,7 @@ func isConnectCall(in ssa.Instruction) bool {
 // C02.R2 every dependency becomes an edge.
 func c02R2(c *Ctx) {
 	const rule = "C02.R2"
-	c.explain("C02.R2 in prepareExprDependencies every iteration over the result of Expression.Dependencies passes a dgraph Connect/ConnectDependency call or leaves with an error; likewise the NextStages loop of connectStepDependencies; in prepareOneOfExprDependencies every option gets an OR connection and a recursive dependency walk")
+	c.explain("C02.R2 in prepareExprDependencies every iteration over the result of Expression.Dependencies passes a dgraph Connect/ConnectDependency call or leaves with an error; likewise the NextStages loop of connectStepDependencies; in prepareOneOfExprDependencies every option gets an OR connection and a recursive dependency walk; none of these loops can be left early with a nil error (an `already connected` shortcut would drop the remaining references)")
 	// (a) prepareExprDependencies
 	if fn := c.Fn("(*workflow.executor).prepareExprDependencies"); fn != nil {
 		li := loopOver(fn, func(v ssa.Value) bool {
@@ -378,7 +378,7 @@ func c02R3(c *Ctx) {
 // C02.R4 publish-then-notify under one lock.
 func c02R4(c *Ctx) {
 	const rule = "C02.R4"
-	c.explain("C02.R4 in onStageComplete the run lock is held from the first instruction that touches the DAG to the return; on every path from the resolution of the stage-output node to notifySteps lie the store of *previousStageOutput into the data model and the call that marks the alternative outputs unresolvable")
+	c.explain("C02.R4 in onStageComplete the run lock is held from the first instruction that touches the DAG to the return; on every path from the resolution of the stage-output node to notifySteps lie the store of *previousStageOutput into the data model and the call that marks the alternative outputs unresolvable; the lock is released only on return (no unlock/re-lock inside); the data model entry that is written is data[steps][stepID][stage][outputID] with stepID, stage and output id being the handler's own arguments (publication path), and the per-stage map is created in the same section")
 	fn := c.Fn("(*workflow.loopState).onStageComplete")
 	notify := c.Fn("(*workflow.loopState).notifySteps")
 	markOut := c.Fn("(*workflow.loopState).markOutputsUnresolvable")
